@@ -173,6 +173,15 @@ def run(ctx):
         for name in ("root", "key_mgr", "pkg_mgr", "nope"):
             for gpg in (False, True):
                 vc.append({"w": wire.case("verify_delegation", name, M.envelope(M.md("key_mgr", th, {}), (0, 1), mode="gpg" if gpg else "raw"), T, gpg), "meta": {"tag": "thresholds"}})
+    # checker-accepted roots of which one, the other, both or none delegate "root" (a root may delegate only key_mgr as far as the schema goes)
+    with_root = {"root": M.delegation((0,), 1), "key_mgr": M.delegation((1,), 1)}
+    without_root = {"key_mgr": M.delegation((1,), 1)}
+    for dt, du in itertools.product((with_root, without_root, {}), repeat=2):
+        for tv, uv in ((1, 2), (1, 1), (2.0, 3)):
+            T = M.envelope(M.md("root", tv, dt), (0,))
+            U = M.envelope(M.md("root", uv, du), (0,))
+            vc.append({"w": wire.case("verify_root", T, U), "meta": {"tag": "root-delegation-present-or-not"}})
+            vc.append({"w": wire.case("verify_delegation", "root", U, T, True), "meta": {"tag": "root-delegation-present-or-not"}})
     fam = {"verify_root": G.FAMILIES["verify_root"], "verify_delegation": G.FAMILIES["verify_delegation"]}
 
     def vor(c, io):
@@ -187,5 +196,21 @@ def run(ctx):
     core.run_stream(ctx, core.Stream("verifiers on checker-accepted metadata with extreme versions / thresholds (huge ints, integral floats up to 1e308, bools)", vc,
                                      lambda c, io, mo: None if core.impl_class(io) == core.model_class(mo) or core.model_class(mo) == "unmodelled" else "outcome class differs: implementation %s, model %s" % (core.impl_class(io), core.model_class(mo)),
                                      vor))
+    # the whole checker and its parts as written in common.py, interpreted, against the implementation on the cases of the streams above
+    wc = [{"w": wire.case("src_run", "checkformat_delegating_metadata", wire.dec(c["w"])[1]), "meta": {"fn": "checkformat_delegating_metadata"}} for c in cases]
+    wc += [{"w": wire.case("src_run", "checkformat_delegation", wire.dec(c["w"])[1]), "meta": {"fn": "checkformat_delegation"}} for c in dlc]
+    wc += [{"w": wire.case("src_run", "checkformat_utc_isoformat", wire.dec(c["w"])[1]), "meta": {"fn": "checkformat_utc_isoformat"}} for c in dcases[::3]]
+    for v in interesting_values() + nums + [0, -1, 0.5, "1", b"1", float("nan"), float("inf"), -0.0]:
+        wc.append({"w": wire.case("src_run", "checkformat_natural_int", v), "meta": {"fn": "checkformat_natural_int"}})
+        wc.append({"w": wire.case("src_run", "checkformat_utc_isoformat", v), "meta": {"fn": "checkformat_utc_isoformat"}})
+        wc.append({"w": wire.case("src_run", "checkformat_list_of_hex_keys", v), "meta": {"fn": "checkformat_list_of_hex_keys"}})
+        wc.append({"w": wire.case("src_run", "checkformat_delegations", v), "meta": {"fn": "checkformat_delegations"}})
+    kk = PUBHEX[0]
+    for l in ([kk], [kk, kk], [kk, PUBHEX[1]], [kk, kk.upper()], [], [kk, 5], (kk,), [kk[:-1]], [PUBHEX[1], kk, PUBHEX[1]]):
+        wc.append({"w": wire.case("src_run", "checkformat_list_of_hex_keys", l), "meta": {"fn": "checkformat_list_of_hex_keys"}})
+    for d in ({"root": good}, {"root": good, "key_mgr": M.delegation((1,), 1)}, {"root": good, 5: good}, {"root": 5}, {}, {"root": M.delegation((0, 0), 1)}, {"x": good, "y": {"pubkeys": [], "threshold": 0}}):
+        wc.append({"w": wire.case("src_run", "checkformat_delegations", d), "meta": {"fn": "checkformat_delegations"}})
+    core.run_stream(ctx, core.Stream("interpreted source (Gen/Source.v via PySrc.run_prog) vs implementation: the whole checker and its parts on the cases of the streams above",
+                                     wc, rel_src, None, nontrivial=lambda c, i, m: m != "U"))
     ctx.assumptions = ["'integer' is the code's grammar int(x) == x and x >= 1 (True and 2.0 included), written into the schema (DESIGN N2)",
                        "the UTC grammar is CPython's strptime for %Y-%m-%dT%H:%M:%SZ plus datetime range checks (Time.v)"]
